@@ -98,7 +98,7 @@ class Closure:
 
 class Frame:
     __slots__ = ('info', 'locals', 'enclosing', 'gen', 'first_arg', 'defcls', 'loop_counter', 'call_counter',
-                 'reduce_counter', 'reduce_site')
+                 'reduce_counter', 'reduce_site', 'assumed')
 
     def __init__(self, info, locals_, enclosing, first_arg=None, defcls=None):
         self.info = info
@@ -111,6 +111,7 @@ class Frame:
         self.call_counter = 0
         self.reduce_counter = 0
         self.reduce_site = None
+        self.assumed = False    # the truth of this frame's result is about to be assumed (see Interp.call_assumed)
 
 
 class SuperProxy:
@@ -355,10 +356,11 @@ class Interp:
                                     % (info.qualname, next(iter(kwargs)))))
         return loc
 
-    def run_function(self, info, enclosing, defaults, kwdefaults, args, kwargs, defcls=None):
+    def run_function(self, info, enclosing, defaults, kwdefaults, args, kwargs, defcls=None, assumed=False):
         loc = self.bind_args(info, defaults, kwdefaults, args, kwargs)
         first = args[0] if args else None
         frame = Frame(info, loc, enclosing, first, defcls)
+        frame.assumed = assumed
         if info.is_generator and self.collect is not None and self.collect[0] is info and not self.collect[2]:
             # the generator under verification: its body runs here, yields go to the ghost sequence
             from .gens import CollectGen
@@ -441,6 +443,26 @@ class Interp:
             return self.call(f.__func__, args, kwargs)
         # --- builtins, method descriptors, other callables
         return self.call_native(f, list(args), kwargs)
+
+    def call_assumed(self, f, args=(), kwargs=None):
+        """Call a spec predicate whose result is going to be ASSUMED true (a precondition, an invariant at a
+        loop head, a postcondition at a call site).  In its frame -- and in the frames of spec functions it
+        calls in `return f(..) and g(..)` positions, whose results then must be true as well -- a statement
+        `if c: return False` does not need a case split: the path on which c holds would be dropped by the
+        assumption anyway, so `not c` is assumed on the spot."""
+        kwargs = kwargs or {}
+        if isinstance(f, Closure) and _is_spec_file(f.info.filename):
+            return self.run_function(f.info, f.enclosing, f.defaults, f.kwdefaults, args, kwargs, f.defcls_hint,
+                                     assumed=True)
+        if isinstance(f, types.FunctionType) and _is_spec_file(f.__code__.co_filename) \
+                and self.reg.contract_for(f) is None and self.reg.model_for(f) is None:
+            info = funcinfo_of(f)
+            enclosing = []
+            if f.__closure__:
+                enclosing = [dict(zip(f.__code__.co_freevars, [_cell(c) for c in f.__closure__]))]
+            return self.run_function(info, enclosing, f.__defaults__ or (), f.__kwdefaults__, args, kwargs, None,
+                                     assumed=True)
+        return self.call(f, args, kwargs)
 
     def call_function_object(self, func, args, kwargs, defcls, bound_self=None):
         if not isinstance(func, types.FunctionType):
@@ -1237,6 +1259,8 @@ class Interp:
             else:
                 kwargs[k.arg] = self.eval(k.value, frame)
         frame.call_counter += 1
+        if frame.assumed and id(node) in _assumed_positions(frame.info):
+            return self.call_assumed(f, args, kwargs)
         return self.call(f, args, kwargs)
 
     def _super(self, frame):
@@ -1575,6 +1599,9 @@ class Interp:
                         raise PyRaise(IndexError('list assignment index out of range'))
                     obj.delete_first(self)
                     continue
+                if isinstance(obj, MList) and isinstance(idx, int) and idx == -1:
+                    obj.pop(self)
+                    continue
                 if contains_sym(idx, 0) or isinstance(obj, (Sym, Opaque)):
                     raise Unsupported('del with symbolic operand')
                 try:
@@ -1586,6 +1613,11 @@ class Interp:
         return None
 
     def s_If(self, node, frame):
+        if frame.assumed and not node.orelse and len(node.body) == 1 and isinstance(node.body[0], ast.Return) \
+                and isinstance(node.body[0].value, ast.Constant) and node.body[0].value.value is False:
+            # `if c: return False` in a predicate that is being assumed
+            self.st.assume(self.not_(self.eval(node.test, frame)))
+            return None
         if self.branch(self.eval(node.test, frame)):
             return self.exec_block(node.body, frame)
         return self.exec_block(node.orelse, frame)
@@ -1851,6 +1883,44 @@ def _comp_info(parent_info, gens):
 
 
 _COMP_INFO = {}
+
+
+def _is_spec_file(filename):
+    import os
+    from . import VERIF
+    return bool(filename) and os.path.abspath(filename).startswith(os.path.join(VERIF, 'contracts') + os.sep)
+
+
+_ASSUMED_POS = {}
+
+
+def _assumed_positions(info):
+    """ids of the Call nodes of a function whose value must be true whenever the function's result is:
+    the calls that are the returned expression or an operand of its top-level `and`."""
+    key = id(info.node)
+    r = _ASSUMED_POS.get(key)
+    if r is None:
+        r = set()
+
+        def collect(e):
+            if isinstance(e, ast.Call):
+                r.add(id(e))
+            elif isinstance(e, ast.BoolOp) and isinstance(e.op, ast.And):
+                for v in e.values:
+                    collect(v)
+
+        node = info.node
+        if isinstance(node, ast.Lambda):
+            collect(node.body)
+        else:
+            from .loops import _walk_own
+            for n in _walk_own(node):
+                if isinstance(n, ast.Return) and n.value is not None:
+                    collect(n.value)
+        _ASSUMED_POS[key] = (r, info.node)
+    else:
+        r = r[0]
+    return r if isinstance(r, set) else r[0]
 
 
 def _cell(c):
